@@ -3,6 +3,10 @@ package main
 import (
 	"fmt"
 	"strings"
+	"time"
+
+	pbredis "github.com/samaritan-proxy/samaritan/pb/config/protocol/redis"
+	"github.com/samaritan-proxy/samaritan/proc/redis"
 
 	"verifharness/hx"
 )
@@ -17,8 +21,80 @@ func (c07) Rule() string {
 		"and slots handed to another node behind the proxy's back; 4..30 steps. Non-trivial = contains a fault or a layout change; distinct by op line"
 }
 
+// c07.hol   head of line: a connect to node 2 hangs (its backlog is full) while the connection to node 0 is lost; a second client
+// then asks for a key of node 0, which is up.   -> during=<reply while the connect to node 2 is pending> after=<reply once it has timed out>
+func c07HeadOfLine() string {
+	fc, err := hx.NewFakeCluster(3)
+	if err != nil {
+		return "sockerr"
+	}
+	defer fc.Close()
+	per := 16384 / 3
+	for s := 0; s < 16384; s++ {
+		o := s / per
+		if o > 2 {
+			o = 2
+		}
+		fc.SetOwner(s, o)
+	}
+	p, err := hx.NewRedisProc(fc, 3, pbredis.ReadStrategy_MASTER)
+	if err != nil {
+		return "procerr"
+	}
+	defer hx.DropScopes("service." + p.Name() + ".")
+	defer func() {
+		done := make(chan struct{})
+		go func() { p.Stop(); close(done) }()
+		select {
+		case <-done:
+		case <-time.After(3 * time.Second):
+		}
+	}()
+	time.Sleep(70 * time.Millisecond) // the routing table is loaded right after start
+	kb := keysByNode()
+	k0, k2 := clusterKey(kb[0][0]), clusterKey(kb[2][0])
+	c1, err := hx.DialClient(p.Address())
+	if err != nil {
+		return "sockerr"
+	}
+	defer c1.C.Close()
+	if v, err := c1.Do([]byte("set"), k0, []byte("v0")); err != nil || clusterRender(v) != "s4f4b" {
+		return "setup-failed"
+	}
+	if err := fc.Nodes[2].Hang(); err != nil {
+		return "sockerr"
+	}
+	time.Sleep(20 * time.Millisecond)
+	// client 1 asks for a key of node 2: its session sits in the connect (300 ms)
+	if err := c1.Write([]byte("get"), k2); err != nil {
+		return "sockerr"
+	}
+	time.Sleep(50 * time.Millisecond)
+	fc.Nodes[0].Reset() // the connection to node 0 is lost; node 0 keeps listening
+	time.Sleep(50 * time.Millisecond)
+	c2, err := hx.DialClient(p.Address())
+	if err != nil {
+		return "sockerr"
+	}
+	defer c2.C.Close()
+	render := func(v *redis.RespValue, err error) string {
+		if err != nil {
+			return "!" + strings.ReplaceAll(err.Error(), " ", "_")
+		}
+		return clusterRender(v)
+	}
+	during := render(c2.Do([]byte("get"), k0))
+	c1.Reply() // the connect has timed out
+	time.Sleep(30 * time.Millisecond)
+	after := render(c2.Do([]byte("get"), k0))
+	return fmt.Sprintf("during=%s after=%s", during, after)
+}
+
 func (c07) Exec(op string) string {
 	f := hx.Fields(op)
+	if len(f) == 1 && f[0] == "c07.hol" {
+		return recoverStr(c07HeadOfLine)
+	}
 	if len(f) < 4 || f[0] != "c07.cl" {
 		return "bad-op"
 	}
@@ -48,6 +124,10 @@ func (c07) Gen(r *hx.Run) {
 	}
 	for _, b := range basic {
 		r.Do("c07.cl "+b, true, "basic")
+	}
+	// a request for a reachable node while a connect to another node hangs (F-07e)
+	for i := 0; i < r.N(2, 12); i++ {
+		r.Do("c07.hol", true, "head-of-line")
 	}
 	keys := []string{"a", "b", "c", "d", "e", "f", "g1", "h22"}
 	for i := 0; i < r.N(40, 1200); i++ {
